@@ -26,6 +26,11 @@ def run(ctx):
     rule_k1(ctx, F)
     rule_k2(ctx, F)
     rule_k4(ctx, F)
+    # the state byte that indexes the published state keys has K, Q, k, q on bits 4..7: what the importer sets for each letter
+    # (through whatever accessor API) must be that bit - a generic `grant(player, wing)` that numbers the wings the other way
+    # round keeps the engine self-consistent and moves every position with a single right to another key
+    from . import p11
+    p11.reader_castling_letters(ctx, F, "C04.K4")
     rule_k3(ctx, F)
     rule_k5(ctx, F)
     rule_k6(ctx, F)
